@@ -1,6 +1,6 @@
 (* extract/Entry_E3.v — entry points of engine E3 (walk and the path rewrites, path semantics). *)
 From Coq Require Import ZArith QArith List Bool Ascii String.
-From Pico Require Import Num PyStr Value G_geom G_transform G_arc G_meta G_types Arc Walk PathSem Entry_E1.
+From Pico Require Import Num PyStr Value G_geom G_transform G_arc G_meta G_types G_shapes BasicShapes Arc Walk PathSem Entry_E1.
 Import ListNotations.
 Local Open Scope string_scope.
 
@@ -32,6 +32,20 @@ Definition entry_E3 (orc : oracle) (name : string) (v : value) : option value :=
   else if name =? "round_path" then Some (v_path (round_path (N:=QOps) (getZ (arg 1 v)) (path_of (arg 0 v))))
   else if name =? "arcs_to_cubics" then Some (v_path (arcs_to_cubics (N:=QOps) MO (path_of v)))
   else if name =? "as_cmd_seq" then Some (v_path (as_cmd_seq (N:=QOps) MO (path_of v)))
+  else if name =? "shape_rect" then
+    Some (v_path (rect_cmds (N:=QOps) (getQ (arg 0 v)) (getQ (arg 1 v)) (getQ (arg 2 v)) (getQ (arg 3 v)) (getQ (arg 4 v)) (getQ (arg 5 v))))
+  else if name =? "shape_ellipse" then
+    Some (v_path (SVGEllipse_as_path QOps (getQ (arg 0 v)) (getQ (arg 1 v)) (getQ (arg 2 v)) (getQ (arg 3 v))))
+  else if name =? "shape_circle" then
+    Some (v_path (SVGCircle_as_path QOps (getQ (arg 0 v)) (getQ (arg 1 v)) (getQ (arg 2 v))))
+  else if name =? "shape_line" then
+    Some (v_path (SVGLine_as_path QOps (getQ (arg 0 v)) (getQ (arg 1 v)) (getQ (arg 2 v)) (getQ (arg 3 v))))
+  else if name =? "shape_polygon" then
+    Some (v_path (polygon_cmds (N:=QOps) (map (fun q => (getQ (arg 0 q), getQ (arg 1 q))) (getL v))))
+  else if name =? "shape_polyline" then
+    Some (v_path (polyline_cmds (N:=QOps) (map (fun q => (getQ (arg 0 q), getQ (arg 1 q))) (getL v))))
+  else if name =? "builder" then
+    Some (v_path (b_cmd QOps (chr_of (arg 0 v)) (map getQ (getL (arg 1 v))) []))
   else if name =? "interp" then Some (VL (map v_seg_sem (interp (N:=QOps) (path_of v))))
   else if name =? "path_almost_equals" then
     Some (VB (path_almost_equals (N:=QOps) (getQ (arg 2 v)) (path_of (arg 0 v)) (path_of (arg 1 v))))
